@@ -188,8 +188,7 @@ def build_ops(ck, tmp, n):
 def run(tier, seed):
     ck = core.Check("C18", tier, seed, runs=RUNS, units=UNITS)
     ck.assumptions = ["interpreter-level state, import order and hash seeds exist only on the implementation side (compared, not proved)",
-                      "the soundness of the definite-assignment scan with respect to all paths is argued, not proved (Props/C18.v proves the "
-                      "straight-line case)"]
+                      "the extraction of read/write programs from the Python AST (translator/unit_state.py) is trusted; the scan itself is proved sound for all paths (Cmd/StateSound.v)"]
     ck.prepare()
     tmp = tempfile.mkdtemp(prefix="c18-")
     failing = []
